@@ -1,7 +1,7 @@
 #!/usr/bin/env python3
 """Confirm a seeded defect delivered by a sub-agent and file it under /verif/seeded/<ID>-<X>/.
 
-usage: confirm_seeded.py <ID> <X> <agent_worktree> <tests> [--needs "..."]
+usage: confirm_seeded.py <ID> <X> <agent_worktree> <tests> [--needs "..."] [--src A|B]
   <tests>: space-separated pytest targets relative to the repo root (the relevant sub-directories)
 
 Steps (all in a fresh scratch worktree of /repo's HEAD, removed afterwards):
@@ -29,7 +29,8 @@ def main():
     pid, x, awt, tests = sys.argv[1:5]
     needs = sys.argv[sys.argv.index('--needs') + 1] if '--needs' in sys.argv else ''
     src = os.path.join(awt, 'MUTATION')
-    patch, demo = os.path.join(src, f'{x}.diff'), os.path.join(src, f'{x}_demo.py')
+    sx = sys.argv[sys.argv.index('--src') + 1] if '--src' in sys.argv else x   # agent's letter (A/B)
+    patch, demo = os.path.join(src, f'{sx}.diff'), os.path.join(src, f'{sx}_demo.py')
     wt = tempfile.mkdtemp(prefix='vf_confirm_', dir='/tmp')
     os.rmdir(wt)
     res = {'property': pid, 'variant': x}
@@ -70,7 +71,7 @@ def main():
         open(os.path.join(out, 'demo.py'), 'w').write(
             open(demo).read().replace(awt, '<WORKTREE>'))
         meta_txt = ''
-        mt = os.path.join(src, f'{x}_meta.txt')
+        mt = os.path.join(src, f'{sx}_meta.txt')
         if os.path.exists(mt):
             meta_txt = open(mt).read()
         meta = {'breaks_property': pid, 'variant': x, 'needs_to_manifest': needs,
